@@ -1103,3 +1103,36 @@ def actual_fields(emu, nt):
         if isinstance(v, type) and issubclass(v, tuple) and hasattr(v, "_fields"):
             return list(v._fields)
     return None
+
+
+def ident_fast_only(init_tree, win_tree):
+    """`Process._get_ident`: does the `if WINDOWS:` branch ask the platform layer for `create_time(fast_only=True)`, and does
+    `_pswindows.Process.create_time` re-raise a permission error when `fast_only` (instead of the slower fall-back)?"""
+    fn = extract.find_def(init_tree, "_get_ident", cls="Process")
+    branch = [n for n in ast.walk(fn) if isinstance(n, ast.If) and extract.unparse(n.test) == "WINDOWS"]
+    if len(branch) != 1:
+        raise NotRecognised("_get_ident: WINDOWS branch not found")
+    calls = [n for st in branch[0].body for n in ast.walk(st)
+             if isinstance(n, ast.Call) and extract.dotted(n.func).endswith("create_time")]
+    if len(calls) != 1:
+        raise NotRecognised("_get_ident: %d create_time calls in the WINDOWS branch" % len(calls))
+    c = calls[0]
+    kws = {k.arg: extract.unparse(k.value) for k in c.keywords}
+    if extract.dotted(c.func) == "self._proc.create_time" and kws == {"fast_only": "True"} and not c.args:
+        front = True
+    elif not c.args and not kws:
+        front = False
+    else:
+        raise NotRecognised("_get_ident: create_time call %s" % extract.unparse(c))
+    pf = extract.find_def(win_tree, "create_time", cls="Process")
+    args = [a.arg for a in pf.args.args]
+    if args != ["self", "fast_only"] or [extract.unparse(d) for d in pf.args.defaults] != ["False"]:
+        raise NotRecognised("_pswindows.create_time signature")
+    reraise = False
+    for n in ast.walk(pf):
+        if isinstance(n, ast.If) and extract.unparse(n.test) == "is_permission_err(err)":
+            first = n.body[0] if n.body else None
+            if isinstance(first, ast.If) and extract.unparse(first.test) == "fast_only" and len(first.body) == 1 \
+                    and isinstance(first.body[0], ast.Raise) and first.body[0].exc is None:
+                reraise = True
+    return front and reraise
